@@ -468,6 +468,7 @@ Proof.
   rewrite pub_output_split.
   replace (12 + 10 * n * zlen inners + Z.of_nat i * (4 * n))
     with (zlen (pub_header n address inners) + (zlen (pub_exits n inners) + Z.of_nat i * (4 * n))) by lia.
+  pose proof (zlen_nonneg (pub_exits n inners)).
   rewrite !region_app_skip by nia.
   unfold pub_nulls. rewrite region_concat_chunk; [|lia|apply pub_nulls_chunks; assumption|rewrite map_length; exact Hi].
   exact (nth_map_in (fun q => fwd_region q (8 + 10 * n) (4 * n)) inners i [] [] Hi).
@@ -569,3 +570,108 @@ Section Corollaries.
     hon H (public_batch n address inners) = None -> forall post, ~ rel H (public_batch n address inners) post.
   Proof. intros F. apply refines_honest_fails, refines_public_batch; assumption. Qed.
 End Corollaries.
+
+(* ================= statement forms used by Properties/C12, C13 ================= *)
+Lemma pub_output_segments n address inners i :
+  1 <= n -> length address = 4%nat -> Forall (inner_wf n) inners -> (i < length inners)%nat ->
+  region (pub_output n address inners) (12 + Z.of_nat i * (10 * n)) (10 * n)
+  = (if is_real_inner (nth i inners []) then region (nth i inners []) 8 (10 * n)
+     else repeat 0 (Z.to_nat (10 * n))) /\
+  region (pub_output n address inners) (12 + 10 * n * zlen inners + Z.of_nat i * (4 * n)) (4 * n)
+  = (if is_real_inner (nth i inners []) then region (nth i inners []) (8 + 10 * n) (4 * n)
+     else repeat 0 (Z.to_nat (4 * n))).
+Proof.
+  intros Hn La F Hi. rewrite pub_output_exit_segment, pub_output_null_segment by assumption.
+  unfold fwd_region, is_real_inner. destruct (is_dummy_inner (nth i inners [])); split; reflexivity.
+Qed.
+
+Lemma pub_output_dummy_zeroed n address inners i :
+  1 <= n -> length address = 4%nat -> Forall (inner_wf n) inners -> (i < length inners)%nat ->
+  firstn 4 (skipn 3 (nth i inners [])) = [0; 0; 0; 0] ->
+  region (pub_output n address inners) (12 + Z.of_nat i * (10 * n)) (10 * n) = repeat 0 (Z.to_nat (10 * n)) /\
+  region (pub_output n address inners) (12 + 10 * n * zlen inners + Z.of_nat i * (4 * n)) (4 * n)
+  = repeat 0 (Z.to_nat (4 * n)).
+Proof.
+  intros Hn La F Hi Z4. destruct (pub_output_segments n address inners i Hn La F Hi) as [E1 E2].
+  rewrite E1, E2. unfold is_real_inner, is_dummy_inner.
+  change (in_bh (nth i inners [])) with (firstn 4 (skipn 3 (nth i inners []))). rewrite Z4.
+  split; reflexivity.
+Qed.
+
+(* executable well-formedness, for concrete examples *)
+Definition inner_wfb (n : Z) (pis : list Z) : bool := (zlen pis =? 21 * n + 8) && forallb is_canon pis.
+Lemma inner_wfb_spec n pis : inner_wfb n pis = true -> inner_wf n pis.
+Proof.
+  unfold inner_wfb, inner_wf. rewrite andb_true_iff, Z.eqb_eq, forallb_forall, Forall_forall.
+  intros [L C]. split; [exact L|]. intros x Ix. apply is_canon_spec, C, Ix.
+Qed.
+Lemma inners_wfb_spec n inners : forallb (inner_wfb n) inners = true -> Forall (inner_wf n) inners.
+Proof. rewrite forallb_forall, Forall_forall. intros C x Ix. apply inner_wfb_spec, C, Ix. Qed.
+
+Section Corollaries2.
+  Variable H : list Z -> list Z.
+  Variable n : Z.
+  Hypothesis Hn : 1 <= n.
+
+  Lemma public_batch_dummy_exempt address l1 d d' l2 :
+    Forall (inner_wf n) (l1 ++ d :: l2) -> inner_wf n d' ->
+    is_dummy_inner d = true -> is_dummy_inner d' = true ->
+    ((exists out, rel H (public_batch n address (l1 ++ d :: l2)) (fun o => o = out)) <->
+     (exists out, rel H (public_batch n address (l1 ++ d' :: l2)) (fun o => o = out))).
+  Proof.
+    intros F W' D D'.
+    assert (F' : Forall (inner_wf n) (l1 ++ d' :: l2)).
+    { apply Forall_app in F. destruct F as [F1 F2]. apply Forall_app. split; [exact F1|].
+      inversion F2; subst. constructor; assumption. }
+    rewrite !public_batch_accept_iff by assumption.
+    rewrite (pub_compat_dummy_exempt l1 d d' l2 D D'). tauto.
+  Qed.
+
+  Lemma public_batch_only_keys address address' inners inners' :
+    Forall (inner_wf n) inners -> Forall (inner_wf n) inners' ->
+    map (fun q => (in_asset q, in_fee q, in_bh q)) inners = map (fun q => (in_asset q, in_fee q, in_bh q)) inners' ->
+    ((exists out, rel H (public_batch n address inners) (fun o => o = out)) <->
+     (exists out, rel H (public_batch n address' inners') (fun o => o = out))).
+  Proof.
+    intros F F' E. rewrite !public_batch_accept_iff by assumption.
+    rewrite (pub_compat_only_keys inners inners' E). tauto.
+  Qed.
+End Corollaries2.
+
+(* ---- further statement forms for Properties/C12, C36 ---- *)
+Lemma pub_output_spelled n address inners :
+  pub_output n address inners =
+  address
+  ++ (match find is_real_inner inners with
+      | Some q => [in_asset q; in_fee q] ++ in_bh q ++ [in_bn q; 2 * n * zlen inners]
+      | None => [0; 0] ++ [0; 0; 0; 0] ++ [0; 2 * n * zlen inners]
+      end
+      ++ concat (map (fun q => if is_dummy_inner q then repeat 0 (Z.to_nat (10 * n)) else region q 8 (10 * n)) inners)
+      ++ concat (map (fun q => if is_dummy_inner q then repeat 0 (Z.to_nat (4 * n))
+                               else region q (8 + 10 * n) (4 * n)) inners)).
+Proof.
+  unfold pub_output, pub_ref. destruct (find is_real_inner inners); rewrite <- ?app_assoc; reflexivity.
+Qed.
+Lemma pub_output_header_spelled n address inners :
+  1 <= n -> length address = 4%nat -> Forall (inner_wf n) inners ->
+  region (pub_output n address inners) 0 12 =
+  address ++ (match find is_real_inner inners with
+              | Some q => [nth 1 q 0; nth 2 q 0] ++ firstn 4 (skipn 3 q) ++ [nth 7 q 0]
+              | None => [0; 0; 0; 0; 0; 0; 0]
+              end) ++ [2 * n * zlen inners].
+Proof. intros Hn La F. rewrite pub_output_header by assumption. apply pub_header_spelled. Qed.
+Lemma pub_output_regions n address inners :
+  1 <= n -> length address = 4%nat -> Forall (inner_wf n) inners ->
+  region (pub_output n address inners) 12 (10 * n * zlen inners)
+  = concat (map (fun q => fwd_region q 8 (10 * n)) inners) /\
+  region (pub_output n address inners) (12 + 10 * n * zlen inners) (4 * n * zlen inners)
+  = concat (map (fun q => fwd_region q (8 + 10 * n) (4 * n)) inners).
+Proof.
+  intros Hn La F.
+  exact (conj (pub_output_exit_region n address inners Hn La F) (pub_output_null_region n address inners Hn La F)).
+Qed.
+Lemma pub_output_parts n address inners :
+  pub_output n address inners = pub_header n address inners ++ pub_exits n inners ++ pub_nulls n inners /\
+  pub_exits n inners = concat (map (fun q => fwd_region q 8 (10 * n)) inners) /\
+  pub_nulls n inners = concat (map (fun q => fwd_region q (8 + 10 * n) (4 * n)) inners).
+Proof. split; [apply pub_output_split|split; reflexivity]. Qed.
